@@ -969,6 +969,270 @@ def run_store_history(ctx, case):
 
 
 # ---------------------------------------------------------------------------------------------
+# stream 5: the REAL Rally sync client (esrally.client.EsClientFactory -> RallySyncElasticsearch -> elastic_transport) under
+# EsClient, over a scripted in-process node: faults on any HTTP exchange, stores with and without X-Elastic-Product
+# ---------------------------------------------------------------------------------------------
+IGNORED = {"delete": [404], "create_index": [400]}
+HEAD_METHODS = ("exists", "template_exists")
+SPECS = ["ok", 429, 502, 503, 504, 401, 403, 400, 404, 409, 500, "connError", "connTimeout"]
+
+
+def _node_class():
+    from elastic_transport import BaseNode
+
+    class ScriptedNode(BaseNode):
+        plan = None
+
+        def perform_request(self, method, target, body=None, headers=None, request_timeout=None):
+            return ScriptedNode.plan(self, method, target, body, headers)
+
+        def close(self):
+            pass
+
+    return ScriptedNode
+
+
+def spec_class(spec, head, ignore, is_info):
+    """class of what one client call ends with when the exchange is answered with `spec` (the property's fault classes)"""
+    if spec == "ok":
+        return "success"
+    if spec in ("connError", "connTimeout"):
+        return "transient"
+    if not is_info:
+        if head and spec == 404:
+            return "success"
+        if spec in ignore:
+            return "success"
+    if spec == 401:
+        return "authn"
+    if spec == 403:
+        return "authz"
+    if spec in RETRYABLE:
+        return "transient"
+    return "fatal"
+
+
+def gen_real_client(ctx):
+    """every EsClient method on the real client stack x per-attempt fault scripts for the product check (GET /) and for the request
+    itself x store with / without the X-Elastic-Product header x first call on the client object or a later one"""
+    rng = ctx.rng
+    methods = store_methods()
+    i = 0
+    # complete small family: each method x each answer class of the request in attempt 0 (info clean), and x each fault of the product check
+    for name in methods:
+        for store in ("header", "legacy"):
+            for spec in SPECS:
+                for where in ("target", "info", "target-after-warmup"):
+                    i += 1
+                    if i % ctx.nshards != ctx.shard:
+                        continue
+                    ops = []
+                    if where == "target-after-warmup":
+                        ops.append({"m": "refresh" if name != "refresh" else "search", "info": [], "target": []})
+                    ops.append({"m": name, "info": [spec] if where == "info" else [], "target": [spec] if where != "info" else []})
+                    yield {"store": store, "truth": {"index": i % 2 == 0, "template": i % 3 == 0, "doc": i % 2 == 1}, "ops": ops, "rnd": [RND_POOL[(i + j) % len(RND_POOL)] for j in range(30)]}
+    for _ in range(ctx.budget):
+        ops = []
+        for name in rng.sample(methods, rng.choice([1, 1, 2, 3])):
+            def script():
+                r = rng.random()
+                if r < 0.4:
+                    return []
+                if r < 0.8:
+                    return [rng.choice(["ok", 429, 502, 503, 504, "connError", "connTimeout"]) for _ in range(rng.choice([1, 2, 3]))] + ([rng.choice(SPECS)] if rng.random() < 0.4 else [])
+                if r < 0.93:
+                    return [rng.choice(SPECS)]
+                return [rng.choice([429, 503, "connError", "connTimeout"])] * rng.choice([10, 11, 12])
+            ops.append({"m": name, "info": script(), "target": script()})
+        yield {"store": rng.choice(["header", "legacy"]), "truth": {"index": rng.random() < 0.5, "template": rng.random() < 0.5, "doc": rng.random() < 0.5},
+               "ops": ops, "rnd": gen_rnds(rng, 60)}
+
+
+def run_real_client(ctx, case):
+    import json
+    import warnings
+    import elastic_transport
+    from elastic_transport import ApiResponseMeta, HttpHeaders
+    from elastic_transport._node._base import NodeApiResponse
+    from esrally import client as rally_client
+    from esrally import exceptions, metrics
+
+    Node = _node_class()
+    truth = dict(case["truth"])
+    header = case["store"] == "header"
+    rnds = case["rnd"]
+    trace = []
+    cur = {"op": None, "log": []}
+    ledger = {}
+    resent = []
+
+    def respond(node, status, doc, head=False):
+        h = {"content-type": "application/json"}
+        if header:
+            h["x-elastic-product"] = "Elasticsearch"
+        raw = b"" if head else json.dumps(doc).encode()
+        return NodeApiResponse(ApiResponseMeta(status=status, http_version="1.1", headers=HttpHeaders(h), duration=0.0, node=node.config), raw)
+
+    def plan(node, method, target, body, headers):
+        op = cur["op"]
+        attempt = sum(1 for e in trace if e != "|")
+        is_info = method == "GET" and target == "/"
+        script = op["info"] if is_info else op["target"]
+        spec = script[attempt] if attempt < len(script) else "ok"
+        head = method == "HEAD"
+        key = (method, target, body or b"")
+        entry = {"attempt": attempt, "kind": "info" if is_info else "target", "method": method, "target": target, "spec": spec}
+        cur["log"].append(entry)
+        if not is_info and key in ledger:
+            resent.append({"request": f"{method} {target}", "body": (body or b"")[:80].decode("utf-8", "replace"), "first acknowledged with": ledger[key]})
+        if spec == "connError":
+            raise elastic_transport.ConnectionError("scripted connection error")
+        if spec == "connTimeout":
+            raise elastic_transport.ConnectionTimeout("scripted timeout")
+        if spec != "ok":
+            entry["status"] = spec
+            return respond(node, spec, {"error": {"type": f"err_{spec}_0", "reason": "scripted", "root_cause": [{"type": f"err_{spec}_0", "reason": "scripted"}]}, "status": spec}, head)
+        # the healthy answer of a small cluster
+        if is_info:
+            ver = "8.6.1" if header else "7.10.2"
+            entry["status"] = 200
+            return respond(node, 200, {"name": "n1", "cluster_name": "metrics", "version": {"number": ver, "build_flavor": "default", "build_type": "tar"}, "tagline": "You Know, for Search"})
+        path = target.split("?")[0]
+        status, doc = 200, {"acknowledged": True}
+        if head:
+            exists = truth["template"] if path.startswith("/_index_template") else truth["index"]
+            status, doc = (200 if exists else 404), None
+        elif path.endswith("/_bulk"):
+            n = len((body or b"").strip().split(b"\n")) // 2
+            doc = {"took": 1, "errors": False, "items": [{"index": {"_id": str(j), "status": 201}} for j in range(n)]}
+        elif path.endswith("/_search"):
+            doc = {"hits": {"total": {"value": 0}, "hits": []}}
+        elif method == "GET" and path.startswith("/_index_template"):
+            doc = {"index_templates": []}
+        elif method == "DELETE" and "/_doc/" in path:
+            if truth["doc"]:
+                truth["doc"] = False
+                doc = {"result": "deleted"}
+            else:
+                status, doc = 404, {"result": "not_found"}
+        elif method == "PUT" and path.count("/") == 1 and not path.startswith("/_"):
+            if truth["index"]:
+                status, doc = 400, {"error": {"type": "resource_already_exists_exception", "reason": "exists"}, "status": 400}
+            else:
+                truth["index"] = True
+        elif method == "POST" and path.endswith("/_delete_by_query"):
+            doc = {"deleted": 1}
+        elif method == "GET":
+            doc = {"rally-metrics-2026-09": {"settings": {}}}
+        entry["status"] = status
+        if 200 <= status < 300 and method in ("PUT", "POST", "DELETE") and not path.endswith(("/_search", "/_refresh")):
+            ledger[key] = status
+        return respond(node, status, doc, head)
+
+    Node.plan = plan
+    with warnings.catch_warnings():
+        warnings.simplefilter("ignore")
+        es = rally_client.EsClientFactory(hosts=[{"host": HOST, "port": PORT}], client_options={"use_ssl": False, "verify_certs": True, "timeout": 120, "node_class": Node}).create()
+        client = metrics.EsClient(es)
+        draws = 0
+        sig = []
+        with Patched(trace, rnds) as pt:
+            for op in case["ops"]:
+                name = op["m"]
+                meth = getattr(metrics.EsClient, name, None)
+                if meth is None:
+                    raise HarnessError("no such EsClient method " + name)
+                kw = method_args(name, inspect.signature(meth), 2)
+                cur["op"], cur["log"] = op, []
+                del trace[:]
+                truth_before = dict(truth)
+                draws = pt.draws
+                try:
+                    ret = getattr(client, name)(**kw)
+                    final = ("returned", ret)
+                except exceptions.SystemSetupError as e:
+                    final = ("SystemSetupError", str(e.message)[:160])
+                except exceptions.RallyError as e:
+                    final = ("RallyError", str(e.message)[:160])
+                except Exception as e:  # pylint: disable=broad-except
+                    final = ("foreign", f"{type(e).__name__}: {e}"[:160])
+                pauses = list(trace)
+                K = len(pauses)
+                if final[0] == "foreign" and not cur["log"]:
+                    # the real client rejects the call before anything is sent: the store operation cannot work at all
+                    ctx.fail("store-operation-rejected-by-real-client", f"EsClient.{name}(...) raises before any request reaches the metrics store when EsClient wraps the real "
+                             "Elasticsearch client (works only against a mock)", "a request to the store", final[1])
+                    ctx.count("method-rejected:" + name)
+                    sig.append([name, "rejected"])
+                    continue
+                head = name in HEAD_METHODS
+                ignore = IGNORED.get(name, [])
+                log = cur["log"]
+                problems = []
+                for k in range(K + 1):
+                    info_k = op["info"][k] if k < len(op["info"]) else "ok"
+                    target_k = op["target"][k] if k < len(op["target"]) else "ok"
+                    seen = [e["kind"] for e in log if e["attempt"] == k]
+                    kinds = [x for j, x in enumerate(seen) if j == 0 or seen[j - 1] != x]
+                    # --- correspondence with the Lean model of perform_request
+                    wire = lambda sp: 200 if sp == "ok" else sp
+                    tgt_ok_status = 200
+                    if target_k == "ok":
+                        tl = [e for e in log if e["attempt"] == k and e["kind"] == "target" and "status" in e]
+                        tgt_ok_status = tl[-1]["status"] if tl else 200
+                    m = ctx.model("guarded", "client_call", {"verified": "info" not in kinds, "head": head, "ignore": ignore, "info": wire(info_k),
+                                                              "target": tgt_ok_status if target_k == "ok" else target_k})
+                    if m["r"]["exchanges"] != kinds:
+                        ctx.diff(f"exchanges of EsClient.{name} attempt {k + 1}", m["r"]["exchanges"], kinds)
+                    out = m["r"]["outcome"]
+                    mclass = "success" if out[0] == "response" else ("transient" if out[0] in ("connError", "connTimeout") else spec_class(out[1], False, [], True))
+                    # --- direct oracle: what the property prescribes for the fault classes of this attempt's exchanges
+                    cands = [spec_class(target_k, head, ignore, False)]
+                    if info_k != "ok":
+                        cands.append(spec_class(info_k, head, ignore, True))
+                    if k < K:
+                        want = frac_str(2**k + (rnd_float(rnds[draws + k]) if draws + k < len(rnds) else 0.0))
+                        act = "pause"
+                        ok = "transient" in cands and k < 10 and pauses[k] == want
+                        mok = mclass == "transient" and k < 10
+                    else:
+                        act = final[0]
+                        if final[0] == "returned":
+                            ok = "success" in cands
+                            mok = mclass == "success"
+                            if ok and head and target_k == "ok":
+                                exists = truth_before["template"] if name == "template_exists" else truth_before["index"]
+                                if bool(ret) != exists:
+                                    ok = False
+                            if ok and head and target_k == 404 and bool(ret):
+                                ok = False
+                        elif final[0] == "SystemSetupError":
+                            ok = "authn" in cands or "authz" in cands
+                            mok = mclass in ("authn", "authz")
+                        elif final[0] == "RallyError":
+                            ok = "fatal" in cands or ("transient" in cands and k >= 10)
+                            mok = mclass == "fatal" or (mclass == "transient" and k >= 10)
+                        else:
+                            ok, mok = False, False
+                    if not mok:
+                        ctx.diff(f"EsClient.{name} attempt {k + 1}: action vs model outcome", {"model outcome": out, "class": mclass}, {"action": act, "final": final[0]})
+                    if not ok:
+                        problems.append({"attempt": k + 1, "answers": {"GET /": info_k, "request": target_k}, "allowed": cands, "observed": act})
+                if problems:
+                    cls = "non-rally-exception-escapes" if final[0] == "foreign" else "client-fault-not-handled-as-property-says"
+                    ctx.fail(cls, f"EsClient.{name} on the real client stack (store {'with' if header else 'without'} X-Elastic-Product): the answers of the node are not "
+                                  "retried / surfaced as the property prescribes for their fault class",
+                             problems[:3], {"final": [final[0], str(final[1])[:120]], "pauses": pauses, "exchanges": [[e["attempt"], e["method"], e["target"], e.get("status", e["spec"])] for e in log][:24]})
+                sig.append([name, final[0], K, sorted({e["kind"] for e in log})])
+                ctx.count("method:" + name)
+                ctx.count("final:" + final[0])
+    if resent:
+        ctx.fail("acknowledged-request-sent-again", "a write the cluster had acknowledged (2xx) was sent again", "each acknowledged write at most once", resent[:3])
+    ctx.count("store:" + case["store"])
+    ctx.sig(sig, nontrivial=True)
+
+
+# ---------------------------------------------------------------------------------------------
 # translator: constants and the method table of EsClient (AST)
 # ---------------------------------------------------------------------------------------------
 def _is_self_attr(node, attr):
@@ -1125,4 +1389,5 @@ STREAMS = [
     Stream("store_methods", gen_methods, run_method, quick=6000, thorough=120000, shards=12),
     Stream("method_table", gen_table, run_table, quick=1, thorough=1, shards=1),
     Stream("store_histories", gen_store_histories, run_store_history, quick=4000, thorough=80000, shards=16),
+    Stream("real_client_ops", gen_real_client, run_real_client, quick=3000, thorough=60000, shards=16),
 ]
